@@ -462,14 +462,21 @@ class Interp:
                 self._put(normal, s, tr)
             elif is_raise(oc):
                 kind = oc[1]
-                pending = {(s, kind): tr}
+                pending = {(s, kind, frozenset()): tr}
                 for h in node.handlers:
                     if not pending:
                         break
                     types = self._handler_types(h)
                     nxt = {}
-                    for (s1, k1), tr1 in pending.items():
-                        verdict, k2 = self.lat.catches(types, k1)
+                    for (s1, k1, excl), tr1 in pending.items():
+                        # residual of an earlier partial catch: subclasses of excluded kinds cannot arrive here
+                        live = types
+                        if types is not None and excl:
+                            live = [t for t in types if not any(self.lat.issub(t, e) for e in excl)]
+                            if not live:
+                                nxt[(s1, k1, excl)] = tr1
+                                continue
+                        verdict, k2 = self.lat.catches(live, k1)
                         if verdict in ("yes", "maybe"):
                             s2 = self.dom.on_handler(h, k2, s1)
                             if h.name:
@@ -479,10 +486,12 @@ class Interp:
                                 s2 = self.dom.on_store(ast.Name(id=h.name, ctx=ast.Store()), ("exc", k2), s2, h)
                             for k, trh in self.block(h.body, {s2: self._ext(tr1, h)}, k2).items():
                                 self._put(mid, k, trh)
-                        if verdict in ("no", "maybe"):
-                            nxt[(s1, k1)] = tr1
+                        if verdict == "no":
+                            nxt[(s1, k1, excl)] = tr1
+                        elif verdict == "maybe":
+                            nxt[(s1, k1, excl | {k2})] = tr1
                     pending = nxt
-                for (s1, k1), tr1 in pending.items():
+                for (s1, k1, excl), tr1 in pending.items():
                     self._put(mid, (s1, RAISE(k1)), tr1)
             else:
                 self._put(mid, (s, oc), tr)
